@@ -171,6 +171,51 @@ def stepA (id : String) (inp obs : List String) : String :=
     verdict id mi s "-" s!"{tele.started} {tele.ended} {tele.active} {expect.length} {expectRows.length}"
   | _, _ => s!"{id} bad-case"
 
+/-! concurrent history: completion order is not part of the case, everything is compared as multisets -/
+
+def countOf {α} [BEq α] (l : List α) (x : α) : Nat := (l.filter (· == x)).length
+def sameBag {α} [BEq α] (a b : List α) : Bool := a.length == b.length && a.all (fun x => countOf a x == countOf b x)
+
+def stepAC (id : String) (inp obs : List String) : String :=
+  if obs == ["P"] then verdict id false false "-" "a-panic-escaped-ServeHTTP" else
+  match runP (do
+      let reqs ← list (do let f ← pFacts; let p ← pProg; let m ← str; pure (f, p, m))
+      let pats ← list str
+      pure (reqs, pats)) inp,
+    runP (do
+      let st ← nat; let en ← nat; let ac ← int
+      let spans ← list (do let nm ← str; let e ← nat; pure (nm, e))
+      let rows ← list (do let r ← str; let s ← nat; let c ← nat; let z ← nat; pure (⟨r, s, c, z⟩ : Row))
+      let clients ← list (do let s ← nat; let z ← nat; pure (s, z))
+      pure (st, en, ac, spans, rows, clients)) obs with
+  | some (reqs, pats), some (started, ended, active, spans, rows, clients) =>
+    let outs := reqs.map fun (f, p, m) => (f, m, serve f p)
+    let tele := outs.foldl (fun t (_, _, o) => t.run o.log) ({} : Tele)
+    let liveOuts := outs.filter fun (f, _, _) => f.obs && f.live
+    let expect : List (Bytes × Nat) := liveOuts.filterMap fun (f, m, o) =>
+      (modelLabel o).map fun l => (m ++ " ".toList ++ (if l = [] then f.path else l), errOf o.status)
+    let expectRows : List Row := liveOuts.foldl (fun rows (_, _, o) =>
+      match modelLabel o with
+      | some l => addRow rows (routeAttr l) o.status o.size
+      | none => rows) []
+    let expectClients := liveOuts.map fun (_, _, o) => (o.status, o.size)
+    let mi := tele.started == started && tele.ended == ended && tele.active == active &&
+      sameBag expect spans && sameMultiset expectRows rows && sameBag expectClients clients
+    let allLabels := pats ++ sentinels
+    let s := started == ended && active == 0 && spans.length == liveOuts.length &&
+      spans.all (fun sp =>
+        ((reqs.map fun (_, _, m) => m).any fun m => (allLabels.any fun l => sp.1 == m ++ " ".toList ++ l) ||
+          (pats.contains [] && sp.1 == m ++ " /".toList))) &&
+      -- the error statuses of the spans are the error statuses the clients received
+      sameBag ((spans.map (·.2)).filter (· != 0)) ((clients.map fun c => errOf c.1).filter (· != 0)) &&
+      rows.all (fun r => labelOK pats r.route) &&
+      (rows.foldl (fun n r => n + r.count) 0) == liveOuts.length &&
+      (rows.foldl (fun n r => n + r.size) 0) == (clients.foldl (fun n c => n + c.2) 0) &&
+      (rows.map (·.status)).eraseDups.all (fun st =>
+        ((rows.filter (·.status == st)).foldl (fun n r => n + r.count) 0) == (clients.filter (·.1 == st)).length)
+    verdict id mi s "-" s!"{tele.started} {tele.ended} {tele.active} {expect.length} {expectRows.length}"
+  | _, _ => s!"{id} bad-case"
+
 def step (line : String) : String :=
   match splitCase line with
   | none => "? bad-line"
@@ -178,6 +223,7 @@ def step (line : String) : String :=
     match inp with
     | "R" :: rest => stepR id rest obs
     | "A" :: rest => stepA id rest obs
+    | "AC" :: rest => stepAC id rest obs
     | _ => s!"{id} bad-case"
 
 end Rivaas.DriverC08
